@@ -59,6 +59,12 @@ def gen_program(r, i):
     stmts.append(("def", "lam_", ("fn", [("p", None, False)], programs.V("p"))))
     stmts.append(programs.LOG("reflect", ("list", [programs.CALL("info", programs.V("helper_")), programs.CALL("string", programs.V("helper_")), programs.CALL("info", programs.V("lam_")),
                                                    programs.CALL("string", programs.V("lam_")), programs.CALL("info", programs.V("log")), programs.CALL("helper_", programs.I(3))])))
+    # string literals whose text is a word of the language, as operands of the word operators
+    kw = r.choice(["not", "in", "is", "and", "or", "empty", "zero", "to", "end", "do", "then", "keys", "all", "TRUE", "NULL", "string", "with"])
+    stmts.append(("def", "kw_", programs.S(kw)))
+    stmts.append(programs.LOG("keyword-like-strings", ("list", [("chain", [programs.V("kw_"), programs.S(kw)], ["is"]), ("chain", [programs.V("kw_"), programs.S(kw)], ["=="]),
+                                                               ("in", programs.S(kw), ("list", [programs.S(kw)])), ("chain", [programs.S(kw), programs.V("kw_")], ["!="]),
+                                                               ("not", ("chain", [programs.V("kw_"), programs.S("x" + kw)], ["is"]))])))
     return "operators", ("seq", stmts)
 
 
@@ -104,6 +110,19 @@ def run_shard(spec, ctx):
         bout = R.out.output
         ctx.count("programs")
         if base[0] == "syntax":
+            # a harness defect - unless the same tokens with redundant parentheses are accepted: then parentheses decide
+            accepted = None
+            for _try in range(4):
+                rd = render.Renderer(style=r, paren_p=0.8, semi_p=0.0)
+                alt = " ".join(rd.program(prog))
+                got, glog, o2 = R.run_text(alt)
+                if got[0] != "syntax":
+                    accepted = alt
+                    break
+            if accepted is not None:
+                ctx.violation("C14:%s:parentheses-decide-acceptance" % family, "canonical %r is rejected (%s) but %r is accepted" % (
+                    text0[:500], core.safe_str(o.exc, 80), accepted[:500]), {"canonical": text0, "rendering": accepted})
+                continue
             ctx.count("harness_syntax_errors")
             ctx.note("canonical rendering does not parse: %s :: %s" % (core.safe_str(o.exc, 80), text0[:300]))
             continue
